@@ -160,8 +160,8 @@ MUTANTS += [
     dict(prop="C06", name="hlo-comparison-direction-ge-as-gt", tests=T_TGT, edits=[(HLO,
         'StableHLO_ComparisonDirectionValue<"{expr.kind.upper()}">', 'StableHLO_ComparisonDirectionValue<"{expr.kind.upper().replace(\'GE\', \'GT\')}">')]),
     dict(prop="C06", name="hlo-binding-repeated-at-use", tests=T_TGT, edits=[(HLO,
-        '            assert self.need_ref.get(expr.ref), expr.ref\n            return f"{tab}${expr.ref}"\n',
-        '            assert self.need_ref.get(expr.ref), expr.ref\n            if expr.kind == "multiply":\n                self.defined_refs.discard(expr.ref)\n            else:\n                return f"{tab}${expr.ref}"\n')]),
+        '        if expr.ref in self.defined_refs:\n            assert self.need_ref.get(expr.ref), expr.ref\n            return f"{tab}${expr.ref}"\n\n        self.defined_refs.add(expr.ref)\n',
+        '        if expr.ref in self.defined_refs and expr.kind != "multiply":\n            assert self.need_ref.get(expr.ref), expr.ref\n            return f"{tab}${expr.ref}"\n\n        self.defined_refs.add(expr.ref)\n')]),
     dict(prop="C06", name="hlo-constant-like-not-checked-for-definition", tests=T_TGT, edits=[(HLO,
         "            if like.ref in self.defined_refs:\n", "            if True:\n")]),
     dict(prop="C06", name="hlo-printer-defined-refs-class-level", tests=T_TGT, edits=[(HLO,
